@@ -6,6 +6,7 @@ import (
 	"fmt"
 	"github.com/gr33nbl00d/caddy-revocation-validator/core"
 	"github.com/gr33nbl00d/caddy-revocation-validator/core/hashing"
+	"github.com/gr33nbl00d/caddy-revocation-validator/core/verifhook"
 	"github.com/gr33nbl00d/caddy-revocation-validator/crl/crlreader"
 	"go.uber.org/zap"
 	"math/big"
@@ -144,6 +145,7 @@ func (S *MapStore) Update(store CRLStore) error {
 		S.Map[k] = v
 	}
 	storeNew.close()
+	verifhook.Hit("map.update.replaced", S)
 	return nil
 }
 
